@@ -1043,3 +1043,13 @@ m('C07', 'collect_x_entry_probes_first_element', 'src/core/map_fil_col_x.rs', ""
     let task = |c| task(&iter, &map, &filter, c);
     let vectors = Runner::run_map(params, ParTask::Collect, &iter, &task);
     output.append(vectors);""", 'C05-ENTRY')
+m('C07', 'collect_x_task_buffered_pull', 'src/core/map_fil_col_x.rs', """            while let Some(chunk) = iter.next_chunk_x(c) {
+                collected.extend(chunk.map(&map).filter(&filter));
+            }""", """            let mut buffered = iter.buffered_iter_x(c);
+            while let Some(chunk) = buffered.next_x() {
+                collected.extend(chunk.map(&map).filter(&filter));
+            }""", 'C07-BUFSITE')
+m('C10', 'find_head_search_then_parallel', 'src/core/map_fil_find.rs', """        false => par_map_fil_find(params, iter, map, filter),""", """        false => {
+            let head = iter.ids_and_values().take(8).map(|x| (x.0, map(x.1))).find(|x| filter(&x.1));
+            head.or(par_map_fil_find(params, iter, map, filter))
+        }""", 'C05-OUTSIDE')
